@@ -74,9 +74,21 @@ def main():
     pretok = dic.pre_tokenizer(mode="C")
     for ti, t in enumerate(texts):
         emit({"ev": "pt_oracle", "text": ti, "tokens": [[ord(c) for c in s] for s in pretok(0, FakeNormalizedString(t))]})
+
+    # a custom handler that, like real handlers, gives up the interpreter lock while it still holds the morpheme list it was given
+    import time
+
+    def handler(index, string, ms):
+        n = len(ms)
+        first = [ms[i].surface() for i in range(n // 2)]
+        time.sleep(0.0002)
+        return first + [ms[i].surface() for i in range(n // 2, n)]
+    pretok_h = dic.pre_tokenizer(mode="C", handler=handler)
+    for ti, t in enumerate(texts):      # its own single-threaded reference (a handler makes the pre-tokenizer load all fields)
+        emit({"ev": "pt_oracle", "text": 100000 + ti, "tokens": [[ord(c) for c in s] for s in pretok_h(0, FakeNormalizedString(t))]})
     shared_tok = dic.create()
 
-    for arrangement in ("own", "pretok", "shared"):
+    for arrangement in ("own", "pretok", "pretok_handler", "shared"):
         barrier = threading.Barrier(nthreads)
         tables = [dict() for _ in range(nthreads)]
 
@@ -98,6 +110,11 @@ def main():
                     elif arrangement == "pretok":
                         m = 2
                         r = ["ok", [[ord(c) for c in s] for s in pretok(k, FakeNormalizedString(texts[ti]))]]
+                    elif arrangement == "pretok_handler":
+                        m = 2
+                        if k >= iters // 8:      # the handler sleeps: fewer rounds
+                            break
+                        r = ["ok", [[ord(c) for c in s] for s in pretok_h(k, FakeNormalizedString(texts[ti]))]]
                     else:
                         r = ["ok", morphs(shared_tok.tokenize(texts[ti], mode=MODES[m]))]
                 except RuntimeError as e:            # "Already mutably borrowed": the extension refused a concurrent use
